@@ -181,6 +181,15 @@ def run_input(ctx, i):
             cand = {"curvature_matrix": _np(src.curvature_matrix).copy(), "regularization_matrix": _np(src.regularization_matrix).copy(),
                     "log_det_regularization_matrix_term": float(src.log_det_regularization_matrix_term),
                     "operated_mapping_matrix": _np(src.operated_mapping_matrix).copy(), "w_tilde": src_ds.w_tilde}
+            # the two mapper-part slots of the w-tilde formalism (mapper entries of D, mapper diagonal blocks of F; the entries of
+            # function lists / other objects are filled in by the inversion): meaningful whenever there is a mapper
+            extra_subsets = []
+            if use_w and not only_functions:
+                dvm, cmd = src._data_vector_mapper, src._curvature_matrix_mapper_diag
+                if dvm is not None and cmd is not None:
+                    cand["data_vector_mapper"] = _np(dvm).copy()
+                    cand["curvature_matrix_mapper_diag"] = _np(cmd).copy()
+                    extra_subsets = [("data_vector_mapper",), ("curvature_matrix_mapper_diag",), ("data_vector_mapper", "curvature_matrix_mapper_diag", "w_tilde")]
         except aa.exc.InversionException:
             ctx.skipped["baseline:InversionException"] += 1
             continue
@@ -191,7 +200,7 @@ def run_input(ctx, i):
         tolc = 1e-9 * abs(ref["logdet_c"]) + 1e-14 * len(reg_idx) * float(np.linalg.cond(A)) + 1e-12
         tolh = 1e-9 * abs(ref["logdet_h"]) + 1e-14 * len(reg_idx) * float(np.linalg.cond(Hr)) + 1e-12
         fresh_delta = None
-        for subset in subsets:
+        for subset in list(subsets) + extra_subsets:
             key = "inp:%d:%s:%s" % (i, tagf, "+".join(subset) or "none")
             if not ctx.begin(key):
                 continue
